@@ -125,6 +125,56 @@ pub fn e2(id: &str) -> Option<E2Def> {
                 ],
             }
         }
+        "C10" => {
+            let mut p = e2_profile_base();
+            p.max_ops = 30;
+            p.max_ks = 3;
+            p.w.write = 40;
+            p.w.batch = 10;
+            p.w.rotate = 10;
+            p.w.step = 14;
+            p.w.clear = 3;
+            p.w.ks_admin = 3;
+            p.w.reopen = 1;
+            p.w.tx = 4;
+            p.hot_keys = false;
+            E2Def {
+                id: "C10",
+                mode: Mode::Evict,
+                profile: p,
+                quick_programs: 128,
+                thorough_programs: 2000,
+                quick_points: 14,
+                rule: "programs over 2-3 keyspaces with different memtable sizes, journal position scale 64000 (journal rotation after ~1 KB, in fjall's unmodified Flush path), generated orders of rotate / worker-step / clear / keyspace deletion, ending with 'rotate + flush every keyspace'; SIGKILL immediately after and immediately before EVERY unlink of a *.jnl file plus sampled generic points; oracle = recovery yields the full acknowledged state (prefix model, p >= acknowledged); log invariants: unlinked journal ids strictly increasing, always the smallest id present, never the active journal; at the end journal_count() == 1 and exactly one *.jnl on disk; non-trivial = kill adjacent to a journal unlink in a program with >= 2 journal rotations; distinct by (program hash, kill index)",
+                assumptions: vec!["max_journaling_size stays at its default (the straggler path needs >= 64 MiB of journals and is not reached)"],
+            }
+        }
+        "C13" => {
+            let mut p = e2_profile_base();
+            p.max_ops = 16;
+            p.w.write = 40;
+            p.w.batch = 14;
+            p.w.clear = 4;
+            p.w.persist = 8;
+            p.w.tx = 0;
+            p.w.auto = 0;
+            p.w.ks_admin = 0;
+            p.w.reopen = 0;
+            p.w.weak = 0;
+            E2Def {
+                id: "C13",
+                mode: Mode::Fault,
+                profile: p,
+                quick_programs: 96,
+                thorough_programs: 1200,
+                quick_points: 40,
+                rule: "programs of inserts, removes, batches (incl. records larger than the 8 KiB journal buffer), clears, persist calls, rotations/flush steps (journal rotation via position scale), automatic journal persist (under manual persist an acknowledged write is by contract not yet persisted), all three database flavours; for journal-file call index n (thorough: every n; quick: a seeded sample) x fault kind {EIO on write, ENOSPC on write, true short write then ENOSPC, EIO on fsync/fdatasync} x {one-shot, sticky} the program runs to completion under the interposer; oracle: (1) the foreground write operation during which the fault fired returns an error, (2) every write-kind operation attempted afterwards returns an error, (3) after a fault-free reopen the state equals the acknowledged state or that plus the whole failed operation; non-trivial = the fault fired inside an operation and >= 1 further write was attempted afterwards; distinct by (program hash, fault spec)",
+                assumptions: vec![
+                    "single foreground thread (several writer threads are not exercised by this check)",
+                    "faults are injected on journal (*.jnl) files only; table-file errors are lsm-tree's domain",
+                ],
+            }
+        }
         _ => return None,
     })
 }
@@ -224,6 +274,7 @@ pub fn op_kind(op: &Op) -> &'static str {
         Op::CreateKs { .. } => "CreateKs",
         Op::DeleteKs { .. } => "DeleteKs",
         Op::Reopen { .. } => "Reopen",
+        Op::SettleJournals => "SettleJournals",
         _ => "Other",
     }
 }
@@ -335,6 +386,8 @@ pub fn shard_e2(def: &E2Def, tier: &str, seed: u64, shard: u32, programs: u32) -
     match def.mode {
         Mode::Torn => return crate::e2torn::shard_torn(def, tier, seed, shard, programs),
         Mode::PowerLoss => return crate::e2power::shard_power(def, tier, seed, shard, programs),
+        Mode::Evict => return crate::e2evict::shard_evict(def, tier, seed, shard, programs),
+        Mode::Fault => return crate::e2fault::shard_fault(def, tier, seed, shard, programs),
         _ => {}
     }
     silence_panics();
@@ -441,6 +494,12 @@ pub fn replay_e2(def: &E2Def, rp: &E2Replay) -> Option<String> {
     }
     if def.mode == Mode::PowerLoss {
         return crate::e2power::replay_power(rp);
+    }
+    if def.mode == Mode::Evict {
+        return crate::e2evict::replay_evict(rp);
+    }
+    if def.mode == Mode::Fault {
+        return crate::e2fault::replay_fault(rp);
     }
     let r = (|| -> Result<(), String> {
         let cr = count_run(&sb, &rp.case)?;
